@@ -43,8 +43,44 @@ class Crate:
 
     def _prep(self):
         for inst in self.inst.values():
+            inst['_crate_inst'] = self.inst
+            inst['mut_params'] = set()
+            prep_body(inst)        # first pass: reference resolution (definitions are rebuilt below)
+        # which by-reference parameters does a function write through (directly, via a leaf, or via a callee)?
+        changed = True
+        while changed:
+            changed = False
+            for inst in self.inst.values():
+                mp = inst['mut_params']
+                argc = inst.get('argc', 0)
+                for b in inst['blocks']:
+                    if b['cleanup']:
+                        continue
+                    for st in b['st']:
+                        if st['s'] == 'assign' and st['pl'].get('p') and st['pl']['p'][0] == '*':
+                            r = inst['resolve_ref'](st['pl']['l'])
+                            if r is not None and isinstance(r[0], tuple) and r[0][1] not in mp:
+                                mp.add(r[0][1])
+                                changed = True
+                    t = b['term']
+                    if t['t'] != 'call' or t.get('closure_call'):
+                        continue
+                    cal = self.inst.get(t['callee']) if not t['leaf'] else None
+                    for ai, a in enumerate(t['args']):
+                        al = op_local(a)
+                        ty = t['argtys'][ai] if ai < len(t.get('argtys', [])) else ''
+                        if al is None or not ty.startswith('&mut ') or REF_PRESERVING.search(t['callee']):
+                            continue
+                        if cal is not None and (ai + 1) not in cal.get('mut_params', set()):
+                            continue
+                        r = inst['resolve_ref'](al)
+                        if r is not None and isinstance(r[0], tuple) and r[0][1] not in mp:
+                            mp.add(r[0][1])
+                            changed = True
+        for inst in self.inst.values():
             prep_body(inst)
             for p in inst['promoted']:
+                p['_crate_inst'] = self.inst
                 prep_body(p)
 
     def discr_of(self, adt_def, vidx):
@@ -154,13 +190,18 @@ def prep_body(body):
             alias[l] = op_local(rv['o'])
     body['refs'] = refs
 
+    argc_ = body.get('argc', 0)
+
     def resolve_ref(l, depth=0):
-        """local holding a reference -> (base local, projection beyond derefs) it points to, or None"""
+        """local holding a reference -> (base local, projection beyond derefs) it points to, or None.
+        A chain that ends in a by-reference PARAMETER yields (('param', i), proj): the pointee lives in the caller."""
         if depth > 10:
             return None
         if l in alias:
             return resolve_ref(alias[l], depth + 1)
         if l not in refs:
+            if 1 <= l <= argc_ and body['locals'][l].startswith('&'):
+                return (('param', l), [])
             return None
         pl, _ = refs[l]
         proj = pl.get('p', [])
@@ -198,8 +239,13 @@ def prep_body(body):
         t = b['term']
         idx = len(b['st'])
         if t['t'] == 'call':
-            # &mut arguments to leaf calls update their pointee
-            if t['leaf']:
+            # &mut arguments update their pointee: always for leaf calls, and for walked callees that (transitively) write
+            # through that parameter (summary body['mut_params'], computed by Crate._prep before the definitions are built)
+            callee_mut = None
+            if not t['leaf']:
+                cb = (body.get('_crate_inst') or {}).get(t['callee'])
+                callee_mut = cb.get('mut_params', set()) if cb is not None else set()
+            if not t.get('closure_call'):
                 for ai, a in enumerate(t['args']):
                     al = op_local(a)
                     if al is None:
@@ -209,8 +255,10 @@ def prep_body(body):
                         continue
                     if REF_PRESERVING.search(t['callee']):
                         continue
+                    if callee_mut is not None and (ai + 1) not in callee_mut:
+                        continue
                     r = resolve_ref(al)
-                    if r is None:
+                    if r is None or isinstance(r[0], tuple):
                         continue
                     add_def(bi, idx, r[0], 'mut', term=t, argi=ai, proj=r[1])
             if not t['dest'].get('p'):
